@@ -33,8 +33,9 @@ VOCAB = [
 assert len(VOCAB) == 40
 VOCAB_B = VOCAB + ["\n", "\n    ", "\n        ", "\n", "or", "is", "try", "except", "finally", "while", "elif", "raise", "assert", "global", "nonlocal", "None", "->", ":=", "@", "...", "|", "<", "//", "+=", "type", "_", "*=", "~", "y", "0", '"t"', "b'b'", "True", "break", "continue"]
 
-# '!' is a Python lexeme only in '!=' and as an f-string conversion ('!r}', '!s:', ...)
-NOT_PY = re.compile(r"[$?`]|!(?!=|[rsa]\s*[:}])|&&|\|\||@\(|>&|(?i:(?<!\w)[rbuf]{0,2}p[rbuf]{0,2}['\"])")
+# '!' is a Python lexeme only in '!=' and as an f-string conversion marker: '!' + optional blanks + a word (valid or not) + ':' or '}'
+# (no xonsh construct starts that way: those are '!(' '![' 'f!(' and 'cmd! ...' inside a subprocess bracket)
+NOT_PY = re.compile(r"[$?`]|!(?!=|\s*\w*\s*[:}])|&&|\|\||@\(|>&|(?i:(?<!\w)[rbuf]{0,2}p[rbuf]{0,2}['\"])")
 
 
 SMALL_VALID = [
@@ -54,6 +55,8 @@ NEIGHBOUR_VOCAB = sorted({t for t in mutate.PY_VOCAB if t.strip() and "\n" not i
 
 
 FSTRING_FIELD_FORMS = ["f'{x! r}'", "f'{x ! r}'", "f'{x!\\tr}'", "f'''{x!\\nr}'''", "f'{x!r !s}'", "f'{x!}'", "f'{x! }'", "f'{x:{y:{z:{w}}}}'", "f'{x:{y:{z:{w:{v}}}}}'", "f'{a:{b}{c:{d:{e}}}}'", "f'{x:{y:{z:>{w}}}}'", "f'{f'{a:{b:{c:{d}}}}'}'", "f'{x:'}'", 'f"{x:"}"', "f'''{x:'''}'''", "f'{x=!}'", "f'{x=:{y:{z:{w}}}}'"]
+# conversion names: every word of 1..3 letters over the valid letters (and some others): only 's', 'r', 'a' are conversions
+FSTRING_FIELD_FORMS += [t.replace("C", a + b + c) for a in ("s", "r", "a", "x", "S") for b in ("", "s", "r", "a") for c in ("", "a", "r") for t in ("f'{x!C}'", "f'{x!C:>4}'", "f'{x=!C}'", 'rf"""{x!C}"""')]
 
 
 STRING_CONTINUATIONS = ["x = f'abc\\\\\\\\\ndef'\n", "x = 'abc\\\\\\\\\ndef'\n", "s = 'abc\\\ndef\nghi'\n", "s = f'abc\\\ndef\nghi'\n", "x = b'a\\\\\\\\\nb'\n", "x = r'a\\\\\\\\\nb'\n", "x = 'a\\\n", "x = f'a{b}\\\\\\\\\nc'\n", "x = 'a\\\\\\\\\\\\\\\\\nb'\n", 'y = "a\\\nb\nc"\n', "z = rf'a\\\nb\nc{d}'\n", "x = 'a\\\r\nb\r\nc'\r\n"]
